@@ -32,7 +32,8 @@ After every batch of `fix:` commits the kept changes are swept again (`tools/see
 76th fix commit: every change confirmed and caught again); patches whose hunk a fix had touched are re-based by hand
 keeping their intent, the previous file stays next to them as `patch.before-rebase*.diff`.  Rounds: 1-3b early
 changes, 4 "multi-step history", 5 "re-open a repaired defect for some inputs", 6 "narrow value class / boundary /
-two features together / one of several equivalent paths" (`origin` in meta.json).
+two features together / one of several equivalent paths", 7 "glue: optional parameters, alternative argument forms,
+second element, state that survives an exception, ordering of options" (`origin` in meta.json).
 
 | seeded change | needs | caught by | how |
 |---------------|-------|-----------|-----|
